@@ -49,6 +49,7 @@ type FuncContract struct {
 	File     string
 	Line     int
 	Opts     map[string]string
+	AssumesAt map[string][]*Clause // point -> assumptions taken there ("recv N")
 	PubCells []string // closures: captured variables written once by the token holder before close(PubChan), read only after it is closed
 	PubChan  string
 	PubToken string
@@ -294,6 +295,23 @@ func ParseSpecFile(path, pkgPath string, ps *PkgSpec) error {
 			}
 			pt = strings.TrimSpace(pt)
 			curF.Asserts[pt] = append(curF.Asserts[pt], c)
+		case "assumeat":
+			// assumeat <point>: [label:] expr  - an assumption (listed in the evidence) taken at a program point
+			if curF == nil {
+				return fail(l.n, "assumeat outside func block")
+			}
+			pt, ex, ok := strings.Cut(rest, ":")
+			if !ok {
+				return fail(l.n, "assumeat needs '<point>: <expr>'")
+			}
+			c, err := mkClause(l.n, strings.TrimSpace(ex))
+			if err != nil {
+				return err
+			}
+			if curF.AssumesAt == nil {
+				curF.AssumesAt = map[string][]*Clause{}
+			}
+			curF.AssumesAt[strings.TrimSpace(pt)] = append(curF.AssumesAt[strings.TrimSpace(pt)], c)
 		case "localmonitor":
 			if curF == nil {
 				return fail(l.n, "localmonitor outside func block")
